@@ -8,8 +8,31 @@ let put_history (os : float res list) =
   then put_res (List.find (fun o -> match o with Ok _ -> false | _ -> true) os)
   else (put_i (List.length os); List.iter put_res os)
 
+(* one call of the family inside a "seq" case *)
+let read_call r : float call =
+  match word r with
+  | "gammaln" -> CGammaLn (num r)
+  | "gamma" -> CGamma (num r)
+  | "gammaq" -> let x = num r in let a = num r in CGammaQ (x, a)
+  | "gammap" -> let x = num r in let a = num r in CGammaP (x, a)
+  | "upper" -> let x = num r in let a = num r in CUpper (x, a)
+  | "lower" -> let x = num r in let a = num r in CLower (x, a)
+  | "invp" -> let p = num r in let a = num r in CInvP (p, a)
+  | "invq" -> let q = num r in let a = num r in CInvQ (q, a)
+  | "fact" -> CFact (z_of_int (integer r))
+  | "binom" -> let n = integer r in let k = integer r in CBinom (z_of_int n, z_of_int k)
+  | o -> failwith ("unknown call " ^ o)
+
 let handler r =
   match word r with
+  | "seq" ->   (* seq m call_1 .. call_m : a history in one process from the initial state; prints h_i f_i (history answer, fresh answer) *)
+      let m = integer r in
+      let rec rd k = if k = 0 then [] else let c = read_call r in c :: rd (k - 1) in
+      let cs = rd m in
+      let (_, os) = call_run fops (fact_init fops) cs in
+      let bad o = (match o with Ok _ -> false | _ -> true) in
+      if List.exists (fun (h, _) -> bad h) os then put_res (fst (List.find (fun (h, _) -> bad h) os))
+      else (put_i m; List.iter (fun (h, f) -> put_res h; put_res f) os)
   | "fact" ->   (* fact m n1 .. nm : a history of Factorial calls, table threaded through, from {1.0} *)
       let ns = List.map z_of_int (ilist r) in
       let (_, os) = factorial_run fops (fact_init fops) ns in put_history os
